@@ -583,7 +583,36 @@ def r08_8(ctx):
     ctx.floor('R08.8', 'block array allocations in multi_blocks', n, 3)
 
 
+def r08_9(ctx):
+    """Assembler.update(**kwargs) hands ALL given fields to the compiled assembler.  Skipping a field because the function
+    object `is` the one stored earlier treats identity as "unchanged": a BSplineFunc whose coefficients were overwritten in
+    place, or a closure over the current time, is silently not re-evaluated."""
+    f = ctx.prog.func(A + '.Assembler.update')
+    kw = f.node.args.kwarg.arg if f.node.args.kwarg else None
+    calls = [c for c in ast.walk(f.node) if isinstance(c, ast.Call) and src(c.func) == 'self.asm.update']
+    if not calls or kw is None:
+        ctx.undecided('R08.9', f.qual, 'self.asm.update(**kwargs)', f.node, 'forwarding call not recognised')
+        return
+    ident = [c for c in ast.walk(f.node) if isinstance(c, ast.Compare) and any(isinstance(o, (ast.Is, ast.IsNot)) for o in c.ops)
+             and not any(isinstance(x, ast.Constant) and x.value is None for x in ast.walk(c))]
+    for c in calls:
+        direct = any(k.arg is None and src(k.value) == kw for k in c.keywords)
+        st_ = c
+        while st_ is not None and not isinstance(st_, ast.stmt):
+            st_ = parent(st_)
+        if direct and st_ is not None and parent(st_) is f.node:
+            ctx.met('R08.9', f.qual, src(c), c, 'all given fields are forwarded unconditionally')
+        elif ident:
+            ctx.violated('R08.9', f.qual, src(ident[0])[:80], ident[0],
+                         'fields are filtered by object identity before they are forwarded: passing the same function object again after it was '
+                         'changed in place (new spline coefficients, a closure reading the current time) updates nothing and the old operator '
+                         'is assembled')
+        else:
+            ctx.undecided('R08.9', f.qual, src(c), c, 'forwarding is conditional or filtered')
+
+
 def run(ctx):
+    r08_9(ctx)
     r08_8(ctx)
     r08_7(ctx)
     r08_1(ctx)
